@@ -27,7 +27,10 @@ def cases(ctx, n):
         if G.gram(*c[3:]) >= 0.02:
             out.append(c)
     while len(out) < n:
-        out.append(G.valid_cell(ctx.rng, oblique=ctx.rng.random() < 0.85))
+        if ctx.rng.random() < 0.3:
+            out.append(G.special_cell(ctx.rng))
+        else:
+            out.append(G.valid_cell(ctx.rng, oblique=ctx.rng.random() < 0.85))
     return out
 
 
@@ -128,7 +131,7 @@ SPEC = dict(
     props=['props/C01_laue.v', 'props/C01_tools.v'], want={'trace'}, extra_targets=['gen/Corr_C01.vo'],
     pre_build=pre_build, search=search, replay_known=lambda ctx, e: False,
     rule='theorems: universally quantified over R (all valid cells, all real hkl). Correspondence cases: valid cells '
-         '(5 fixed + random, 85% oblique with angles 35..145 deg, Gram det >= 0.02) x 8 functions x 2 modules; a case is '
+         '(5 fixed + random: 30% with angles drawn from {90,60,120,random} and repeated lengths, the rest 85% oblique with angles 35..145 deg; Gram det >= 0.02) x 8 functions x 2 modules; a case is '
          'distinct by (module, function, arguments); search cases distinct by (module, cell, hkl).',
     trusted=['Coq 8.16.1 kernel (vm_compute not used for C01; Interval tactic uses primitive floats/ints)',
              'T1 symbolic tracer vlib/sym.py+trace.py and its numpy shims (pi, zeros, linalg.inv/det/norm, math.degrees), validated numerically and by certified interval evaluation on this run',
